@@ -18,7 +18,7 @@ import m2  # noqa: E402
 PID = "C05"
 TOL = Fraction(1, 10 ** 9)
 INV_SQRT_2PI = Fraction(3989422804014327, 10 ** 16)
-REQ = "From MM Require Import RealSpec.Normal RealSpec.TDist Proofs.NormalR Proofs.TDistR Proofs.M2Lemmas."
+REQ = "From MM Require Import RealSpec.Normal RealSpec.TDist RealSpec.TDistGen Proofs.NormalR Proofs.TDistR Proofs.M2Lemmas Proofs.M2LemmasGen."
 EPS52 = Fraction(1, 2 ** 52)
 
 
@@ -143,7 +143,25 @@ def goal_invcdf(gid, mu, sigma, p, x, pdfx, info):
                    finish="integral with (%(gopt)s)")
 
 
+HALF = Fraction(1, 2)
+
+
+def t_certifiable(v, x):
+    """window the kernel certifies: integer and half-integer V in [1,200] (RealSpec/TDist.v forms) and
+    V = 1/2 (RealSpec/TDistGen.v: the one half-integer below 1; integrand 1/sqrt(cos) up to atan(x/sqrt V))"""
+    if not m2.is_num(v):
+        return False
+    if v == HALF:
+        return abs(x) <= 64
+    return half_steps(v) is not None and abs(x) <= 1000
+
+
 def t_forms(v):
+    if v == HALF:
+        return dict(expr_cdf="tcdf_gen (1 / 2) %s", expr_pdf="tpdf_gen (1 / 2) %s",
+                    cdf_prelude="rewrite tcdf_gen_half_form.", pdf_prelude="rewrite tpdf_gen_half_form.",
+                    num_fun="(fun th => / sqrt (cos th))", num_e="mpf(-1)/2",
+                    fun="(fun th => sqrt (cos th) ^ 3)", e="mpf(3)/2")
     p = half_steps(v)
     if p is None:
         return None
@@ -156,12 +174,15 @@ def t_forms(v):
 def goal_tcdf(gid, v, x, obs, info):
     f = t_forms(v)
     vs, xs = m2.rlit(v), m2.rlit(x)
-    expr = "tcdf %s %s" % (vs, xs)
-    prelude = "rewrite (%s %s %s) by (rewrite ?INR_lit; simpl; lra)." % (f["cdf"], vs, xs)
+    if "expr_cdf" in f:
+        expr, prelude = f["expr_cdf"] % xs, f["cdf_prelude"]
+    else:
+        expr = "tcdf %s %s" % (vs, xs)
+        prelude = "rewrite (%s %s %s) by (rewrite ?INR_lit; simpl; lra)." % (f["cdf"], vs, xs)
     rel = Fraction(1, 10 ** 10)
     up = "(atan (%s / sqrt %s))" % (xs, vs)
-    integrals = [dict(term="RInt %s 0 %s" % (f["fun"], up), pat="RInt _ 0 %s" % up,
-                      ref="cos_int(%s, atan(%s/sqrt(%s)))" % (f["e"], m2.pylit(x), m2.pylit(v)), rel=rel),
+    integrals = [dict(term="RInt %s 0 %s" % (f.get("num_fun", f["fun"]), up), pat="RInt _ 0 %s" % up,
+                      ref="cos_int(%s, atan(%s/sqrt(%s)))" % (f.get("num_e", f["e"]), m2.pylit(x), m2.pylit(v)), rel=rel),
                  dict(term="RInt %s 0 (PI / 2)" % f["fun"], pat="RInt _ 0 (PI / 2)", ref="cos_int(%s, pi/2)" % f["e"], rel=rel)]
     return m2.Goal(gid, expr, obs, TOL, requires=REQ, prelude=prelude, integrals=integrals, ref="tcdf(%s,%s)" % (m2.pylit(v), m2.pylit(x)), info=info)
 
@@ -169,8 +190,11 @@ def goal_tcdf(gid, v, x, obs, info):
 def goal_tpdf(gid, v, x, obs, info):
     f = t_forms(v)
     vs, xs = m2.rlit(v), m2.rlit(x)
-    expr = "tpdf %s %s" % (vs, xs)
-    prelude = "rewrite (%s %s %s) by (rewrite ?INR_lit; simpl; lra)." % (f["pdf"], vs, xs)
+    if "expr_pdf" in f:
+        expr, prelude = f["expr_pdf"] % xs, f["pdf_prelude"]
+    else:
+        expr = "tpdf %s %s" % (vs, xs)
+        prelude = "rewrite (%s %s %s) by (rewrite ?INR_lit; simpl; lra)." % (f["pdf"], vs, xs)
     integrals = [dict(term="RInt %s 0 (PI / 2)" % f["fun"], pat="RInt _ 0 (PI / 2)", ref="cos_int(%s, pi/2)" % f["e"], rel=Fraction(1, 10 ** 11))]
     return m2.Goal(gid, expr, obs, TOL, requires=REQ, prelude=prelude, integrals=integrals, ref="tpdf(%s,%s)" % (m2.pylit(v), m2.pylit(x)), info=info)
 
@@ -208,7 +232,7 @@ def collect(lines):
                 if not (m2.is_num(x) and x != 0):
                     continue
                 info = dict(v=v, x=x, point=pi)
-                ok = half_steps(v) is not None and abs(x) <= 1000
+                ok = t_certifiable(v, x)
                 if m2.is_num(p["cdf"]):
                     (cert if ok else refonly).append(("tcdf", ci, info, p["cdf"]))
                 if m2.is_num(p["pdf"]):
@@ -318,6 +342,12 @@ def extra(ctx):
                     if buckets[b] and len(picked) < quota[kind]:
                         picked.append(buckets[b].pop())
             chosen += picked
+        elif kind in ("tcdf", "tpdf"):
+            # always some goals at V = 1/2 (the only certifiable V below 1), the rest at random
+            nhalf = (2 if kind == "tcdf" else 1) if tier == "quick" else (40 if kind == "tcdf" else 10)
+            half = [it for it in items if it[2]["v"] == HALF][:nhalf]
+            rest = [it for it in items if it[2]["v"] != HALF]
+            chosen += half + rest[:quota.get(kind, 0) - len(half)]
         else:
             chosen += items[:quota.get(kind, 0)]
     seen, goals, gitems = set(), [], []
